@@ -83,6 +83,9 @@ def wf_core(q, weak=1):
         enum_job(3, 2, sample=24, time_limit=600),
         rand_job("WF", 3000000, weak=weak, time_limit=300),
         rand_job("WF", 600000, objs=7, length=120, weak=weak, time_limit=200),
+        rand_job("WF", 150000, objs=12, length=300, weak=weak, time_limit=200, label="rand-WF-long-e1"),
+        fam_job("WF", 400000, time_limit=200, extra=["--max-n", "24"], label="family-WF-large-e1"),
+        enum_job(4, 1, sample=1 << 16, time_limit=300),
     ]
 
 
@@ -179,6 +182,7 @@ def plan_C03(q, seed):
         enum_job(3, 2, cls="FULL", full=True, sample=4 if q else 1, time_limit=25 if q else 200),
         enum_job(4, 1, cls="FULL", full=True, sample=256 if q else 8, time_limit=25 if q else 400),
         fam_job("FULL", 150000 if q else 3000000, time_limit=25 if q else 400),
+        fam_job("FULL", 20000 if q else 400000, time_limit=15 if q else 200, extra=["--max-n", "24"], label="family-FULL-large-e1"),
         fam_job("WF", 60000 if q else 1000000, time_limit=20 if q else 200),
         rand_job("FULL", 60000 if q else 1500000, time_limit=20 if q else 200),
         rand_job("WF", 60000 if q else 1500000, time_limit=20 if q else 200),
